@@ -4,7 +4,7 @@
    one apply() per modification is decided on the implementation by harness/c09.py (partial, see the manifest). *)
 From Coq Require Import ZArith List Bool Arith.
 From GR Require Import Base.Result Adt.RefCache Adt.RefCacheProofs Adt.RetCache Adt.RetCacheProofs
-     IR.State IR.Modify IR.Edit IR.Funcs.
+     IR.State IR.Modify IR.Edit IR.Funcs IR.CacheInv.
 Import ListNotations.
 Open Scope Z_scope.
 
@@ -23,6 +23,30 @@ Theorem C09_leaving_the_context_changes_no_referent :
     (forall x, sym_get x (stab (rcache (finish s))) = abs (rcache s) x) /\
     (forall x, abs (rcache (finish s)) x = abs (rcache s) x).
 Proof. intros s H. exact (apply_spec (rcache s) H). Qed.
+
+(* the reference cache of every state a rewrite reaches satisfies its invariant (so that what it answers is well defined and the
+   theorems above and those of C02 apply at every step), starting from a module whose symbols are distinct and with patches whose
+   symbols are new; the symbol table is the initial one followed by the patches' symbols in insertion order: no symbol is lost *)
+Theorem C09_reference_cache_invariant_at_every_step :
+  forall work s s', apply_all s work = Ok s' -> Inv (rcache s) -> NoDup (keys s ++ work_psyms work) ->
+    Inv (rcache s') /\ keys s' = keys s ++ work_psyms work.
+Proof. exact Inv_apply_all. Qed.
+
+(* ... in particular after the whole rewrite, on leaving the context, every symbol directly holds what the cache answered *)
+Theorem C09_after_a_whole_rewrite :
+  forall tab work s s', rcache s = RefCache.mk_rc [] tab -> NoDup (map fst tab ++ work_psyms work) -> apply_all s work = Ok s' ->
+    refs (rcache (finish s')) = [] /\
+    (forall x, sym_get x (stab (rcache (finish s'))) = abs (rcache s') x) /\
+    map fst (stab (rcache s')) = map fst tab ++ work_psyms work.
+Proof.
+  intros tab work s s' R ND E.
+  assert (HI : Inv (rcache s)).
+  { rewrite R. apply Inv_init. clear -ND. induction (map fst tab) as [|x l IH]; cbn in *; [constructor|].
+    inversion ND; subst. constructor; [intros Hx; apply H1, in_or_app; left; exact Hx|apply IH; assumption]. }
+  assert (ND' : NoDup (keys s ++ work_psyms work)) by (unfold keys; rewrite R; exact ND).
+  destruct (Inv_apply_all _ _ _ E HI ND') as [I K]. destruct (apply_spec (rcache s') I) as (A & _ & B & _).
+  split; [exact A|]. split; [exact B|]. unfold keys in K. rewrite K, R. reflexivity.
+Qed.
 
 (* referent of a symbol through the cache = the abstract referent (what direct assignment would hold) *)
 Theorem C09_referent_through_the_cache :
